@@ -183,3 +183,48 @@ def shared_cache(which: int, a: int, x: int, px: bool, pv: int, warm_same: bool)
     if got[0] != "ok" or exp[0] != "ok" or not same(got[1], exp[1]):
         return 0
     return 2
+
+
+FALSY = [None, 0, False, "", 5]
+
+
+@harness("C08", lemma="defaults-yield-to-falsy", cubes={"form": [0, 1, 2], "vi": [0, 1, 2, 3, 4]}, stubs=("S1",),
+         example=dict(form=0, vi=0, pk=True, first_without=True), timeout=300,
+         bounds="default options {'K': 1, 'S': {'X': 2}} given by WithDefaultOptions / dataset(default_options=) / with_default_options; "
+                "the caller passes K and S.X explicitly as None, 0, False, '' or 5, or not at all; the defaulted node is a dependency "
+                "of a cached consumer evaluated twice (with and without the caller's keys, either order); stub S1",
+         what="default options yield to every value the caller supplies, None and falsy ones included, also through an enclosing "
+              "memoized dataset (a supplied key is a dependency of the consumer)")
+def defaults_yield_to_falsy(form: int, vi: int, pk: bool, first_without: bool) -> int:
+    v = FALSY[vi]
+    D = {"K": 1, "S": {"X": 2}}
+    with untraced():
+        def body(k=Option("K"), x=Option("S.X")):
+            return (k, x)
+
+        if form == 0:
+            node = WithDefaultOptions(dataset(body), D)
+        elif form == 1:
+            node = dataset(body, default_options=D)
+        else:
+            node = dataset(body).with_default_options(D)
+
+        def consumer(n=node):
+            return ("consumer", n)
+
+        c = dataset(consumer)
+    with_keys = {"K": v, "S": {"X": v}} if pk else {"K": v}
+    without = {}
+    order = (without, with_keys) if first_without else (with_keys, without)
+    with quiet():
+        for o in order:
+            got = outcome(lambda: c(o))
+            eff = ref_overlay(D, o)
+            exp = ("consumer", (eff["K"], eff["S"]["X"]))
+            note("form", form, "options", o, "got", got, "expected", exp)
+            if got[0] != "ok" or not same(got[1], exp):
+                return 0
+            direct = outcome(lambda: node(o))
+            if direct[0] != "ok" or not same(direct[1], exp[1]):
+                return 0
+    return 2
